@@ -16,6 +16,12 @@ func init() { register("C15", checkC15) }
 type need struct {
 	what string
 	alts []lit
+	// probe (optional): the suffix of the callee an unexported helper would have to call in
+	// order to establish the need; a helper whose region never calls it is not opaque for it
+	probe string
+	// subject (optional, with probe): the rendered value the need is about; a dynamic call that
+	// is not handed that value cannot establish the need either
+	subject string
 }
 
 type lit struct {
@@ -103,6 +109,12 @@ func requireOnSuccessIdx(c *fw.Ctx, rule, fname string, fn *ssa.Function, idx in
 					// the result of an unexported helper (a method of a request object, a function
 					// with several results) that the expansion could not open
 					if fw.AtomCallsUnexportedHelper(l.Atom) || strings.Contains(l.Atom, "dyn(") {
+						if h := fw.AtomHelper(l.Atom); h != nil && n.probe != "" && !regionCalls(h, n.probe) {
+							continue // the helper cannot establish this need: it never makes the call
+						}
+						if n.subject != "" && strings.Contains(l.Atom, "dyn(") && fw.AtomHelper(l.Atom) == nil && !dynGiven(l.Atom, n.subject) {
+							continue // no callback in this condition is handed the value
+						}
 						op = l.Atom
 					}
 				}
@@ -150,7 +162,68 @@ func expandHelpersForNeeds(t *fw.Table, needs []need) {
 	})
 }
 
-func nd(what string, pos bool, subs ...string) need { return need{what, []lit{{subs, pos}}} }
+func nd(what string, pos bool, subs ...string) need {
+	return need{what: what, alts: []lit{{subs, pos}}}
+}
+
+// dynGiven: some dynamic call rendered in atom (`dyn(f)(a,b)`) has subject among its arguments.
+func dynGiven(atom, subject string) bool {
+	for i := 0; i+4 <= len(atom); i++ {
+		if !strings.HasPrefix(atom[i:], "dyn(") {
+			continue
+		}
+		// skip the callee expression
+		j, depth := i+3, 0
+		for ; j < len(atom); j++ {
+			if atom[j] == '(' {
+				depth++
+			} else if atom[j] == ')' {
+				depth--
+				if depth == 0 {
+					break
+				}
+			}
+		}
+		if j+1 >= len(atom) || atom[j+1] != '(' {
+			continue
+		}
+		// the argument list
+		k, start := j+1, j+2
+		depth = 0
+		for ; k < len(atom); k++ {
+			switch atom[k] {
+			case '(', '[':
+				depth++
+			case ')', ']':
+				depth--
+			case ',':
+				if depth == 1 {
+					if atom[start:k] == subject {
+						return true
+					}
+					start = k + 1
+				}
+			}
+			if depth == 0 {
+				break
+			}
+		}
+		if k <= len(atom) && start <= k && atom[start:k] == subject {
+			return true
+		}
+	}
+	return false
+}
+
+// regionCalls: some function of h's region calls a function whose name ends in suffix.
+func regionCalls(h *ssa.Function, suffix string) bool {
+	for _, dc := range fw.AllDeepCalls(h, nil) {
+		if strings.HasSuffix(fw.CalleeName(dc.Call), suffix) {
+			return true
+		}
+	}
+	return false
+}
 
 func checkC15(c *fw.Ctx) {
 	c.Explanation = "C15 (static): for every handshake entry point the path condition of each success return is extracted from SSA (engine T) and shown to imply every guard the handshake prescribes (remote supports the version, user belongs to the requesting server, local server in the room, restricted-join authorisation, template checks, auth rules; for send_join: parsed event, state key = sender, sender's server = origin, room and event ID match, membership join, valid signature of the sender's server under the strict rule, not banned, authorising user local; for invites: known version, room match, type/membership, valid signature, not already joined in known rooms); the event returned by send_join / invite is the result of Sign(local server, key, private key) applied to the checked event; PerformJoin's success requires make_join, a known version, a successful build, send_join, a create event of a known version and the federation-response checks."
@@ -211,6 +284,7 @@ func checkC15(c *fw.Ctx) {
 		requireOnSuccess(c, "3 send_join", "HandleSendJoin", fn, []need{
 			nd("a known room version", true, "gmsl.GetRoomVersion(*&param:input.RoomVersion)#1 == nil)"),
 			nd("the event parses as untrusted JSON", true, ".NewEventFromUntrustedJSON(", "#1 == nil)"),
+			{what: "the event is an m.room.member event", alts: []lit{{[]string{".Type(" + ev + ") == \"m.room.member\")"}, true}}, probe: ".Type", subject: ev},
 			nd("a state key is present", false, ".StateKey("+ev+") == nil)"),
 			nd("the state key is not empty", false, ".StateKeyEquals("+ev+",\"\")"),
 			nd("the state key equals the sender", true, ".StateKeyEquals("+ev+",(gmsl.PDU).SenderID("+ev+"))"),
@@ -226,7 +300,7 @@ func checkC15(c *fw.Ctx) {
 			nd("the current membership is known", true, ".CurrentMembership(", "#1 == nil)"),
 			nd("the user is not banned", false, ".CurrentMembership(", "#0 == \"ban\")"),
 			nd("the member content decodes", true, "encoding/json.Unmarshal((gmsl.PDU).Content("+ev+"),local:*gmsl.MemberContent) == nil)"),
-			{"the authorising user, if any, is valid and local", []lit{{[]string{"(*local:*gmsl.MemberContent.AuthorisedVia == \"\")"}, true}, {[]string{".Domain(gmsl/spec.NewUserID(*local:*gmsl.MemberContent.AuthorisedVia,true)#0) == *&param:input.LocalServerName)"}, true}}},
+			{what: "the authorising user, if any, is valid and local", alts: []lit{{[]string{"(*local:*gmsl.MemberContent.AuthorisedVia == \"\")"}, true}, {[]string{".Domain(gmsl/spec.NewUserID(*local:*gmsl.MemberContent.AuthorisedVia,true)#0) == *&param:input.LocalServerName)"}, true}}},
 		}, 1)
 		// what is verified
 		for f, want := range map[string][]string{"Message": {".RedactEventJSON(", ".JSON(" + ev + ")"}, "AtTS": {".OriginServerTS(" + ev + ")"}, "ValidityCheckingFunc": {"func:gmsl.StrictValiditySignatureCheck"}, "ServerName": {"phi(", ".Domain(dyn(*&param:input.UserIDQuerier)("}} {
@@ -349,7 +423,7 @@ func checkC15(c *fw.Ctx) {
 	if fn := mustFunc(c, "4 invite", "handleInviteCommonChecks"); fn != nil {
 		requireOnSuccess(c, "4 invite", "handleInviteCommonChecks", fn, []need{
 			nd("the known-room query succeeded", true, ".IsKnownRoom(", "#1 == nil)"),
-			{"in a known room the invited user is not already joined", []lit{{[]string{"(gmsl.RoomQuerier).IsKnownRoom(", "#0"}, false}, {[]string{"gmsl.abortIfAlreadyJoined(param:ctx,*&param:input.RoomID,*&param:input.InvitedSenderID,*&param:input.MembershipQuerier) == nil)"}, true}}},
+			{what: "in a known room the invited user is not already joined", alts: []lit{{[]string{"(gmsl.RoomQuerier).IsKnownRoom(", "#0"}, false}, {[]string{"gmsl.abortIfAlreadyJoined(param:ctx,*&param:input.RoomID,*&param:input.InvitedSenderID,*&param:input.MembershipQuerier) == nil)"}, true}}},
 			nd("the stripped state could be attached", true, "gmsl.setUnsignedFieldForInvite(param:event,", " == nil)"),
 		}, 1)
 		// the already-joined guard depends on nothing but the room being known: wherever the call
@@ -435,7 +509,7 @@ func checkRestrictedJoinSelection(c *fw.Ctx) {
 		nd("the local server is in the allowed room", true, ".LocalServerInRoom"),
 		nd("the joining user is in the allowed room", true, ".UserJoinedToRoom"),
 		nd("the chosen event is a member event with a state key", false, ".StateKey(", " == nil)"),
-		{"the chosen user is a creator or may invite", []lit{{[]string{"slices.Contains(", "reators"}, true}, {[]string{".UserLevel(", " < ", ".Invite)"}, false}, {[]string{".UserLevel(", " >= ", ".Invite)"}, true}, {[]string{"slices.Contains(phi("}, true}}},
+		{what: "the chosen user is a creator or may invite", alts: []lit{{[]string{"slices.Contains(", "reators"}, true}, {[]string{".UserLevel(", " < ", ".Invite)"}, false}, {[]string{".UserLevel(", " >= ", ".Invite)"}, true}, {[]string{"slices.Contains(phi("}, true}}},
 	}
 	known := func(atom string) bool {
 		if !fw.AtomCallsUnexportedHelper(atom) {
